@@ -322,6 +322,57 @@ func c14Run(c *fw.Ctx) {
 			}
 		}
 	}
+	// a long-lived service object published in one accessory and then reused in a rebuilt accessory: the ids of
+	// the rebuilt accessory depend only on ITS construction order (unique, equal to a fresh build)
+	for si, ct := range catalog.ServiceCtors {
+		idx++
+		if !c.Mine(idx) {
+			continue
+		}
+		v, err := ct.Build()
+		if err != nil || catalog.Svc(v) == nil {
+			continue
+		}
+		c.Eval(1)
+		cas := c14Case{Tmpls: []string{"reuse(" + ct.Name + ")"}}
+		if p := guard(func() {
+			shared := catalog.Svc(v)
+			first := accessory.New(accessory.Info{Name: "First"}, accessory.TypeOther)
+			first.AddService(shared)
+			accessory.NewContainer().AddAccessory(first)
+			build := func(s *service.Service) []byte {
+				a := accessory.New(accessory.Info{Name: "Second"}, accessory.TypeOther)
+				a.AddService(service.NewOutlet().Service)
+				a.AddService(s)
+				cont := accessory.NewContainer()
+				cont.AddAccessory(a)
+				j, _ := json.Marshal(cont)
+				seen := map[uint64]bool{}
+				for _, sv := range a.Services {
+					if sv.ID == 0 || seen[sv.ID] {
+						c.Report("iid-reused-object/service", fmt.Sprintf("%s reused in a rebuilt accessory: service instance id %d is zero or not unique", ct.Name, sv.ID), cas)
+					}
+					seen[sv.ID] = true
+					for _, ch := range sv.Characteristics {
+						if ch.ID == 0 || seen[ch.ID] {
+							c.Report("iid-reused-object/characteristic", fmt.Sprintf("%s reused in a rebuilt accessory: characteristic instance id %d is zero or not unique", ct.Name, ch.ID), cas)
+						}
+						seen[ch.ID] = true
+					}
+				}
+				return j
+			}
+			reused := build(shared)
+			fv, _ := catalog.ServiceCtors[si].Build()
+			fresh := build(catalog.Svc(fv))
+			if !bytes.Equal(reused, fresh) {
+				c.Report("iid-depends-on-object-history", fmt.Sprintf("an accessory rebuilt with a previously published %s object gets other ids than a fresh build of the same composition", ct.Name), cas)
+			}
+		}); p != nil {
+			c.Report("panic/reuse", fmt.Sprintf("reuse of %s panics: %v", ct.Name, p), cas)
+		}
+		c.Class("reuse")
+	}
 	// large deterministic compositions
 	for _, n := range []int{40, 150} {
 		idx++
@@ -346,7 +397,7 @@ func init() {
 	fw.Register(&fw.Check{
 		ID:    "C14",
 		Level: "exploration",
-		Rule:  "exhaustive enumeration of container compositions: templates = every accessory constructor of the library plus a custom accessory per service constructor × {plain, hidden, primary, linked}; explicit id ∈ {auto,1,2,3,7}; all single accessories, all pairs (quick: first element restricted to library accessories and every 8th custom one), all triples over a reduced template set, and two large compositions (40, 150 accessories). Each container is built twice. Oracle: accepted accessories have pairwise distinct non-zero ids, instance ids distinct and non-zero per accessory, both builds give byte-identical JSON, JSON is well-formed HAP (aid/iid/type everywhere, valid format, permissions within the HAP vocabulary, linked ids resolvable). distinct_nontrivial = distinct (size, accepted count, id-mode tuple) classes",
+		Rule:  "exhaustive enumeration of container compositions: templates = every accessory constructor of the library plus a custom accessory per service constructor × {plain, hidden, primary, linked}; explicit id ∈ {auto,1,2,3,7}; all single accessories, all pairs (quick: first element restricted to library accessories and every 8th custom one), all triples over a reduced template set, two large compositions (40, 150 accessories), and for every service constructor an accessory rebuilt with a previously published service object. Each container is built twice. Oracle: accepted accessories have pairwise distinct non-zero ids, instance ids distinct and non-zero per accessory, both builds give byte-identical JSON, JSON is well-formed HAP (aid/iid/type everywhere, valid format, permissions within the HAP vocabulary, linked ids resolvable). distinct_nontrivial = distinct (size, accepted count, id-mode tuple) classes",
 		Run:   c14Run,
 		Replay: func(c *fw.Ctx, raw json.RawMessage) {
 			var cas c14Case
